@@ -3,9 +3,11 @@ package main
 import (
 	"bytes"
 	"fmt"
+	"os"
 	"reflect"
 	"regexp"
 	"sort"
+	"strconv"
 	"strings"
 	"unsafe"
 
@@ -403,79 +405,152 @@ func c16Spaces(c *fw.Ctx) {
 			}
 		})
 
-	c.Space("rrset-sign-verify", "RRSIG.Sign and RRSIG.Verify over RRsets of 1..3 records of MX, TXT, SRV, NSEC, A (mixed-case owners and names, unsorted, with a duplicate): the RRset argument is unchanged afterwards, and so are the RRSIG that Verify is called on and the DNSKEY (signer name and key owner in three case spellings); fresh ECDSA-P256 and Ed25519 keys; non-trivial: all", true,
+	c.Space("rrset-sign-verify", "RRSIG.Sign and RRSIG.Verify over RRsets of 1..3 records of MX, TXT, SRV, NSEC, A (mixed-case owners and names, unsorted, with a duplicate) and over RRsets of 1..2 records of every other registered type with every RDATA name in mixed case (owner in mixed case, already canonical, and a wildcard expansion; record TTLs equal to or different from the original TTL — the shapes a 'nothing to canonicalise' shortcut would look at): the RRset argument is unchanged afterwards, and so are the RRSIG that Verify is called on and the DNSKEY (signer name and key owner in three case spellings); fresh ECDSA-P256 and Ed25519 keys; non-trivial: all", true,
 		func(emit func(func(*fw.R))) {
+			type shape struct {
+				t        uint16
+				n        int
+				alg      uint8
+				owner    [][]byte
+				sigOwner string
+				sameTTL  bool
+				upNames  bool
+			}
+			var shapes []shape
 			for _, t := range []uint16{15, 16, 33, 47, 1} {
 				for n := 1; n <= 3; n++ {
 					for _, alg := range []uint8{dns.ECDSAP256SHA256, dns.ED25519} {
-						t, n, alg := t, n, alg
-						emit(func(r *fw.R) {
-							r.Nontrivial()
-							s := wire.Specs[t]
-							var set []dns.RR
-							alph := func(fi int) []wire.Val { return enum.Alphabet(s, fi) }
-							for i := 0; i < n; i++ {
-								vals := enum.Default(s)
-								for fi := range s.Fields {
-									a := alph(fi)
-									vals[fi] = a[(n-i)%minInt(len(a), 4)] // descending-ish, so the set is not sorted
-								}
-								if i == 2 {
-									vals = enum.Default(s) // duplicate of a possible earlier default
-								}
-								rr, err := bind.ToGo(&wire.RR{Name: enum.L("MiXed", "Example"), Type: t, Class: 1, TTL: uint32(100 + i), Vals: vals})
-								if err != nil {
-									return
-								}
-								set = append(set, rr)
-							}
-							key := &dns.DNSKEY{Hdr: dns.RR_Header{Name: "example.", Rrtype: dns.TypeDNSKEY, Class: 1, Ttl: 3600}, Flags: 257, Protocol: 3, Algorithm: alg}
-							priv, err := key.Generate(256)
-							if err != nil {
-								r.Fail("internal/keygen", "%v", err)
-								return
-							}
-							sig := &dns.RRSIG{Hdr: dns.RR_Header{Name: "mixed.example.", Rrtype: dns.TypeRRSIG, Class: 1, Ttl: 100}, Algorithm: alg, KeyTag: key.KeyTag(), SignerName: "example.", Inception: 1, Expiration: 4000000000}
-							before, _ := graph(set, false, true)
-							type signer interface{ Public() any }
-							_ = priv
-							if err := sig.Sign(priv.(interface {
-								Public() cryptoPublicKey
-								Sign(rand ioReader, digest []byte, opts cryptoSignerOpts) ([]byte, error)
-							}), set); err != nil {
-								return
-							}
-							if after, _ := graph(set, false, true); after != before {
-								r.Fail("mutated-by/RRSIG.Sign/"+s.Mnem, "Sign changed the RRset:\n before %s\n after  %s", before, after)
-								before = after
-							}
-							sig.Verify(key, set)
-							if after, _ := graph(set, false, true); after != before {
-								r.Fail("mutated-by/RRSIG.Verify/"+s.Mnem, "Verify changed the RRset:\n before %s\n after  %s", before, after)
-							}
-							// Verify's other two arguments — the RRSIG it is called on and the key — in the spellings a
-							// record from the wire can have: signer and key owner in mixed case, not the canonical form
-							for _, spell := range [][2]string{{"example.", "example."}, {"Example.", "EXAMPLE."}, {"eXAMPLE.", "example."}} {
-								sg := dns.Copy(sig).(*dns.RRSIG)
-								sg.SignerName = spell[0]
-								sg.Hdr.Name = "MiXed.Example."
-								k := dns.Copy(key).(*dns.DNSKEY)
-								k.Hdr.Name = spell[1]
-								bs, _ := graph(sg, false, true)
-								bk, _ := graph(k, false, true)
-								verr := sg.Verify(k, set)
-								as, _ := graph(sg, false, true)
-								ak, _ := graph(k, false, true)
-								if as != bs {
-									r.Fail("mutated-by/RRSIG.Verify/receiver", "Verify (result %v) changed the RRSIG it was called on (signer %q, key owner %q):\n before %s\n after  %s", verr, spell[0], spell[1], bs, as)
-								}
-								if ak != bk {
-									r.Fail("mutated-by/RRSIG.Verify/key", "Verify (result %v) changed the DNSKEY (signer %q, key owner %q):\n before %s\n after  %s", verr, spell[0], spell[1], bk, ak)
-								}
-							}
-						})
+						shapes = append(shapes, shape{t, n, alg, enum.L("MiXed", "Example"), "mixed.example.", false, false})
 					}
 				}
+			}
+			var types []int
+			for t := range wire.Specs {
+				if t != dns.TypeOPT && t != dns.TypeTSIG && t != dns.TypeRRSIG && t != dns.TypeSIG {
+					types = append(types, int(t))
+				}
+			}
+			sort.Ints(types)
+			for _, t := range types {
+				for n := 1; n <= 2; n++ {
+					for oi, ow := range [][][]byte{enum.L("MiXed", "Example"), enum.L("mixed", "example"), enum.L("expanded", "mixed", "example")} {
+						for _, same := range []bool{false, true} {
+							so := "mixed.example."
+							if oi == 2 {
+								so = "*.mixed.example." // the records are an expansion of this wildcard (Labels = 2)
+							}
+							shapes = append(shapes, shape{uint16(t), n, dns.ED25519, ow, so, same, true})
+						}
+					}
+				}
+			}
+			for _, sh := range shapes {
+				sh := sh
+				t, n, alg := sh.t, sh.n, sh.alg
+				emit(func(r *fw.R) {
+					r.Nontrivial()
+					s := wire.Specs[t]
+					var set []dns.RR
+					alph := func(fi int) []wire.Val { return enum.Alphabet(s, fi) }
+					for i := 0; i < n; i++ {
+						vals := enum.Default(s)
+						for fi := range s.Fields {
+							a := alph(fi)
+							vals[fi] = a[(n-i)%minInt(len(a), 4)] // descending-ish, so the set is not sorted
+						}
+						if i == 2 {
+							vals = enum.Default(s) // duplicate of a possible earlier default
+						}
+						if sh.upNames {
+							if i == 1 {
+								vals = enum.Default(s)
+							}
+							for fi, f := range s.Fields {
+								switch f.K {
+								case wire.Name, wire.CName:
+									vals[fi] = wire.Val{L: enum.L("MaiL"+strconv.Itoa(i), "Example"), Root: true}
+								case wire.Names:
+									vals[fi] = wire.Val{N: [][][]byte{enum.L("Rvs"+strconv.Itoa(i), "Example"), enum.L("rvs", "EXAMPLE")}}
+								}
+							}
+						}
+						ttl := uint32(100 + i)
+						if sh.sameTTL {
+							ttl = 100
+						}
+						rr, err := bind.ToGo(&wire.RR{Name: sh.owner, Type: t, Class: 1, TTL: ttl, Vals: vals})
+						if err != nil {
+							return
+						}
+						set = append(set, rr)
+					}
+					key := &dns.DNSKEY{Hdr: dns.RR_Header{Name: "example.", Rrtype: dns.TypeDNSKEY, Class: 1, Ttl: 3600}, Flags: 257, Protocol: 3, Algorithm: alg}
+					priv, err := key.Generate(256)
+					if err != nil {
+						r.Fail("internal/keygen", "%v", err)
+						return
+					}
+					sig := &dns.RRSIG{Hdr: dns.RR_Header{Name: sh.sigOwner, Rrtype: dns.TypeRRSIG, Class: 1, Ttl: 100}, Algorithm: alg, KeyTag: key.KeyTag(), SignerName: "example.", Inception: 1, Expiration: 4000000000}
+					before, _ := graph(set, false, true)
+					if sh.sigOwner[0] == '*' {
+						// Sign derives Labels from the first record's owner; a wildcard signature is made over the
+						// wildcard owner and then verified against the expanded records
+						wset := make([]dns.RR, len(set))
+						for i, rr := range set {
+							wset[i] = dns.Copy(rr)
+							wset[i].Header().Name = sh.sigOwner
+						}
+						if err := sig.Sign(priv.(interface {
+							Public() cryptoPublicKey
+							Sign(rand ioReader, digest []byte, opts cryptoSignerOpts) ([]byte, error)
+						}), wset); err != nil {
+							return
+						}
+						sig.Hdr.Name = "expanded.mixed.example." // as it accompanies the expanded records in a reply (Labels stays 2)
+					} else if err := sig.Sign(priv.(interface {
+						Public() cryptoPublicKey
+						Sign(rand ioReader, digest []byte, opts cryptoSignerOpts) ([]byte, error)
+					}), set); err != nil {
+						return
+					}
+					if after, _ := graph(set, false, true); after != before {
+						r.Fail("mutated-by/RRSIG.Sign/"+s.Mnem, "Sign changed the RRset:\n before %s\n after  %s", before, after)
+						before = after
+					}
+					verr0 := sig.Verify(key, set)
+					if after, _ := graph(set, false, true); after != before {
+						r.Fail("mutated-by/RRSIG.Verify/"+s.Mnem, "Verify (result %v) changed the RRset:\n before %s\n after  %s", verr0, before, after)
+					}
+					if verr0 == nil {
+						r.Count("verified", 1)
+					} else if os.Getenv("VERIF_DEBUG") != "" {
+						r.Count("unverified/"+s.Mnem+"/"+sh.sigOwner+"/"+verr0.Error(), 1)
+					}
+					// Verify's other two arguments — the RRSIG it is called on and the key — in the spellings a
+					// record from the wire can have: signer and key owner in mixed case, not the canonical form
+					for _, spell := range [][2]string{{"example.", "example."}, {"Example.", "EXAMPLE."}, {"eXAMPLE.", "example."}} {
+						sg := dns.Copy(sig).(*dns.RRSIG)
+						sg.SignerName = spell[0]
+						if sh.sigOwner[0] != '*' {
+							sg.Hdr.Name = "MiXed.Example."
+						} else {
+							sg.Hdr.Name = "Expanded.MiXed.Example."
+						}
+						k := dns.Copy(key).(*dns.DNSKEY)
+						k.Hdr.Name = spell[1]
+						bs, _ := graph(sg, false, true)
+						bk, _ := graph(k, false, true)
+						verr := sg.Verify(k, set)
+						as, _ := graph(sg, false, true)
+						ak, _ := graph(k, false, true)
+						if as != bs {
+							r.Fail("mutated-by/RRSIG.Verify/receiver", "Verify (result %v) changed the RRSIG it was called on (signer %q, key owner %q):\n before %s\n after  %s", verr, spell[0], spell[1], bs, as)
+						}
+						if ak != bk {
+							r.Fail("mutated-by/RRSIG.Verify/key", "Verify (result %v) changed the DNSKEY (signer %q, key owner %q):\n before %s\n after  %s", verr, spell[0], spell[1], bk, ak)
+						}
+					}
+				})
 			}
 		})
 }
